@@ -2958,6 +2958,7 @@ template <typename T>
       {
         report_missed("Unfulfilled expectation");
       }
+      sequences->retire();
       this->unlink();
     }
 
